@@ -9,8 +9,9 @@ for d in seeded/S*/; do
   name=$(basename $d)
   if [ $# -gt 0 ]; then m=0; for p in "$@"; do [[ $name == $p* ]] && m=1; done; [ $m = 1 ] || continue; fi
   prop=$(python3 -c "import json;print(json.load(open('$d/meta.json'))['breaks_property'])" 2>/dev/null)
-  if ! git -C $REPO apply --check $PWD/$d/patch.diff 2>/dev/null; then echo "$name $prop SKIP (patch does not apply to the current tree)"; continue; fi
-  git -C $REPO apply $PWD/$d/patch.diff
+  pf=$PWD/$d/patch.diff; [ -f $PWD/$d/patch_on_head.diff ] && pf=$PWD/$d/patch_on_head.diff   # re-based after a later fix: commit touched the same lines
+  if ! git -C $REPO apply --check $pf 2>/dev/null; then echo "$name $prop SKIP (patch does not apply to the current tree)"; continue; fi
+  git -C $REPO apply $pf
   out=$(./check.sh $prop quick 2>&1); rc=$?
   git -C $REPO checkout -- . 2>/dev/null; git -C $REPO reset -q --hard HEAD
   v=$(echo "$out" | grep -E 'verdict=' | head -1 | sed -E 's/.*(verdict=[a-z_]+).*(violations=[0-9]+).*/\1 \2/')
